@@ -14,8 +14,120 @@ pub use crate::message::UtpMessage;
 pub use crate::recovery::Recovery;
 pub use crate::rtte::RttEstimator;
 pub use crate::seq_nr::SeqNr;
+pub use crate::stream_dispatch::verif_hooks::{Endpoint, EndpointKind, Observation};
 pub use crate::stream_rx::{AssemblerAddRemoveResult, OutOfOrderQueue, UserRx};
 pub use crate::stream_tx::UserTx;
 pub use crate::stream_tx_segments::{OnAckResult, PopExpiredProbe, Segments};
 pub use crate::traits::{DefaultUtpEnvironment, UtpEnvironment};
 pub use crate::utils::seq_nr_offset;
+
+/// Canonical encoding of an instant relative to `now` (future: offset, past: bit-inverted age).
+pub fn rel_instant(now: std::time::Instant, t: std::time::Instant) -> u64 {
+    if t >= now {
+        (t - now).as_nanos() as u64
+    } else {
+        !((now - t).as_nanos() as u64)
+    }
+}
+
+/// Packs bytes into the fingerprint (length first, 8 bytes per word).
+pub fn push_bytes(out: &mut Vec<u64>, b: &[u8]) {
+    out.push(b.len() as u64);
+    for c in b.chunks(8) {
+        let mut w = [0u8; 8];
+        w[..c.len()].copy_from_slice(c);
+        out.push(u64::from_le_bytes(w));
+    }
+}
+
+// ---- per-thread gauges (every model-checking execution runs on one thread) ----
+
+use std::{cell::RefCell, collections::BTreeMap, net::SocketAddr};
+
+/// Sizes of one socket dispatcher's tables, published at the start and end of every dispatcher step.
+#[derive(Debug, Clone, Copy, PartialEq, Eq, Default)]
+pub struct SocketGauge {
+    pub streams: usize,
+    pub connecting: usize,
+    pub syn_backlog: usize,
+    pub acceptor_parked: bool,
+    pub max_streams: usize,
+}
+
+#[derive(Default)]
+struct ThreadGauges {
+    sockets: BTreeMap<SocketAddr, SocketGauge>,
+    max_streams_seen: BTreeMap<SocketAddr, usize>,
+    arms: Vec<(SocketAddr, u8)>,
+    // (remote, conn_id_send) of every live connection object created on this thread
+    live: Vec<(SocketAddr, u16)>,
+    created_total: usize,
+    dropped_total: usize,
+}
+
+thread_local! {
+    static GAUGES: RefCell<ThreadGauges> = RefCell::new(ThreadGauges::default());
+}
+
+pub(crate) fn set_gauge(local: SocketAddr, g: SocketGauge) {
+    GAUGES.with(|t| {
+        let mut t = t.borrow_mut();
+        let m = t.max_streams_seen.entry(local).or_insert(0);
+        *m = (*m).max(g.streams);
+        t.sockets.insert(local, g);
+    })
+}
+
+pub(crate) fn note_arm(local: SocketAddr, arm: u8) {
+    GAUGES.with(|t| t.borrow_mut().arms.push((local, arm)))
+}
+
+pub(crate) fn vsock_created(remote: SocketAddr, conn_id_send: u16) {
+    GAUGES.with(|t| {
+        let mut t = t.borrow_mut();
+        t.live.push((remote, conn_id_send));
+        t.created_total += 1;
+    })
+}
+
+pub(crate) fn vsock_dropped(remote: SocketAddr, conn_id_send: u16) {
+    // try_with: connection objects may be dropped while the thread (and its registry) is torn down
+    let _ = GAUGES.try_with(|t| {
+        let mut t = t.borrow_mut();
+        if let Some(i) = t.live.iter().position(|k| *k == (remote, conn_id_send)) {
+            t.live.swap_remove(i);
+        }
+        t.dropped_total += 1;
+    });
+}
+
+/// Clears this thread's registry (call at the start of an execution).
+pub fn gauges_reset() {
+    GAUGES.with(|t| *t.borrow_mut() = ThreadGauges::default())
+}
+
+pub fn gauge(local: SocketAddr) -> Option<SocketGauge> {
+    GAUGES.with(|t| t.borrow().sockets.get(&local).copied())
+}
+
+/// Largest `streams` table size ever published by the socket bound to `local`.
+pub fn gauge_max_streams_seen(local: SocketAddr) -> usize {
+    GAUGES.with(|t| t.borrow().max_streams_seen.get(&local).copied().unwrap_or(0))
+}
+
+/// Which `select!` arm each dispatcher step took: 0 accept request, 1 control request, 2 datagram.
+pub fn take_arms() -> Vec<(SocketAddr, u8)> {
+    GAUGES.with(|t| std::mem::take(&mut t.borrow_mut().arms))
+}
+
+/// (remote, conn_id_send) of the connection objects currently alive on this thread.
+pub fn live_vsocks() -> Vec<(SocketAddr, u16)> {
+    GAUGES.with(|t| t.borrow().live.clone())
+}
+
+pub fn vsock_totals() -> (usize, usize) {
+    GAUGES.with(|t| {
+        let t = t.borrow();
+        (t.created_total, t.dropped_total)
+    })
+}
